@@ -64,7 +64,7 @@ CHECKS = {
             "Generated workloads (puts, overwrites, removals, flushes, iteration, GC cycles with and without unflushed data and budgets, close/reopen) run with a handler on ~140 named points that snapshots the directory before every file-system step; "
             "consecutive images are diffed into single steps, and every byte prefix of every written region is synthesised as a torn state (a self-check counts steps that have no point in between as hook_gaps, so the enumeration is complete with respect to the code that ran). "
             "Each crash image is restored and opened; the open must succeed, every key must read a value it legitimately had between the last completed Flush/Close and the crash instant (for every instant the same bytes were on disk), never foreign bytes, and a generated suffix "
-            "with GC and reopen must then behave like the map model. Quick draws a few states per workload; thorough enumerates all states of every workload, and a sample of second-level crashes inside the recovery open. A further sub-campaign produces images that sequential workloads never reach, in four shapes: one call parked between its sub-steps while a Flush of another task completes; a GC cycle parked inside the cycle, a Flush suspended inside the flush pipeline and the GC cycle completing behind it; a Flush suspended while write calls complete, then the flush completing and the process dying before the next flush; two overlapping Flush calls (the first suspended twice, the second running in between) with write calls completing inside them.",
+            "with GC and reopen must then behave like the map model. Quick draws a few states per workload; thorough enumerates all states of every workload, and a sample of second-level crashes inside the recovery open. A further sub-campaign produces images that sequential workloads never reach, in four shapes: one call parked between its sub-steps while a Flush of another task completes; a GC cycle parked inside the cycle, a Flush suspended inside the flush pipeline and the GC cycle completing behind it; a Flush suspended while write calls complete, then the flush completing and the process dying before the next flush; two overlapping Flush calls (the first suspended twice, the second running in between) with write calls completing inside them; a Flush call that returns while another flush is suspended behind its pool swaps (image taken at the moment of its return).",
             BASE + " Process-crash model (completed system calls are durable); positional writes of <=4 bytes are atomic. Enumeration is exhaustive per generated workload, not over all workloads.", "4 C03"),
     "C08": (True, "exploration", "small-scope exhaustive enumeration + rapid random sequences against a per-operation invariant oracle",
             "index.Index over the in-memory primary, driven under the caller contract the store keeps. Every ordered insertion of up to 5/6 keys of the universe {bucket}x{0,1}^3 followed by every single re-point, removal or re-insertion "
